@@ -49,6 +49,8 @@ type guard struct {
 	lo     uint64
 	dom    *domain
 	elem   string
+	skip   int
+	prev   uint64
 	unsafe bool
 }
 
@@ -69,9 +71,25 @@ func (g *guard) Read(p []byte) (int, error) {
 			g.unsafe = true
 			return 0, errUnsafe
 		}
-		if t, ok := g.dom.byVal[v]; ok && v != tailGoodbye && v != tailTable {
+		// attribution: a type identifier names the element in flight; the fixed fields that the
+		// decoder reads next (which, in a short element, may be the following header) do not
+		if g.skip > 0 {
+			g.skip--
+		} else if t, ok := g.dom.byVal[v]; ok && v != tailGoodbye && v != tailTable {
 			g.elem = t.name
+			switch t.kind {
+			case kFixed:
+				g.skip = int(t.fixed-16) / 8
+			case kACLName:
+				g.skip = 2
+			case kGoodbye: // items are read as 8-byte values: all of them belong to the goodbye
+				g.skip = 1 << 40
+				if n := (g.prev - 16) / 24; g.prev >= 16 && n < 1<<38 {
+					g.skip = int(3 * n)
+				}
+			}
 		}
+		g.prev = v
 	}
 	n := copy(p, g.b[g.off:])
 	g.off += n
